@@ -85,8 +85,8 @@ TYPES_BY_ARITY = {
 }
 EFFECTORS = {'dist': (2, ParamDistance), 'angle': (3, ParamAngle),
              'dihedral': (4, ParamDihedral), 'dihphase': (4, ParamDihedralPhase)}
-BANG_DIHEDRALS = os.environ.get('C05_BANG_DIHEDRALS') == '1'
-REMOVAL_ORDER_ATTR = os.environ.get('C05_REMOVAL_ORDER_ATTR') == '1'
+BANG_DIHEDRALS = os.environ.get('C05_BANG_DIHEDRALS', '1') == '1'
+REMOVAL_ORDER_ATTR = os.environ.get('C05_REMOVAL_ORDER_ATTR', '1') == '1'
 
 
 def order_prefix(code):
